@@ -69,7 +69,7 @@ class Acc:
         if key is not None:
             self.digest = (self.digest + (hash(key) & MASK)) & MASK
         if sample is not None and len(self.samples) < self._max_samples:
-            if (self.n + self._seed) % self._stride == 0 or (self.n == 1 and self._seed % 2 == 0):
+            if (self.n + self._seed) % self._stride == 0 or not self.samples:
                 try:
                     self.samples.append(sample() if callable(sample) else sample)
                 except Exception as e:  # pragma: no cover
